@@ -6,6 +6,7 @@ run harnesses, record violations and write evidence.
 """
 import hashlib
 import json
+import uuid
 import os
 import re
 import shutil
@@ -103,7 +104,7 @@ def tlc(spec, cfg, workers=None, simulate=None, depth=None, timeout=600, env=Non
     specdir = os.path.dirname(os.path.abspath(spec))
     base = os.path.basename(spec)
     meta = os.path.join(metaroot or os.path.join(ROOT, "build", "tlc"),
-                        "%s-%d-%d" % (os.path.basename(cfg), os.getpid(), int(time.time() * 1000) % 1000000))
+                        "%s-%d-%s" % (os.path.basename(cfg), os.getpid(), uuid.uuid4().hex[:12]))
     os.makedirs(meta, exist_ok=True)
     cmd = ["java", "-XX:+UseParallelGC", "-Xmx" + heap, "-Xss16m"]
     if dfs:
